@@ -479,6 +479,7 @@ func (e *Engine) verifyFunction(key string, ct *Contract) (res *FuncResult) {
 	st.alloc = vc.fresh("alloc0", "Int")
 	st.epoch.allocAt = st.alloc
 	vc.emit(fmt.Sprintf("(assert (> %s 0))", st.alloc))
+	vc.registerImmutable()
 	f := vc.newFrame(fn, 0)
 	f.ct = ct
 	vc.topFrame = f
@@ -764,4 +765,219 @@ func sortedKeys(m map[string]*Contract) []string {
 	}
 	sort.Strings(ks)
 	return ks
+}
+
+// registerImmutable declares the heap keys of `immutable T.f` fields up front, so that every havoc can relate the new
+// heap to the old one on already-allocated objects.
+func (vc *VC) registerImmutable() {
+	var names []string
+	for n := range vc.eng.db.Immutable {
+		names = append(names, n)
+	}
+	sort.Strings(names)
+	for _, n := range names {
+		i := strings.LastIndex(n, ".")
+		if i < 0 {
+			continue
+		}
+		t := vc.eng.typeByText(n[:i])
+		if t == nil {
+			continue
+		}
+		stt, ok := types.Unalias(t).Underlying().(*types.Struct)
+		if !ok {
+			continue
+		}
+		for j := 0; j < stt.NumFields(); j++ {
+			if stt.Field(j).Name() != n[i+1:] {
+				continue
+			}
+			base := "F:" + structName(t) + "." + n[i+1:]
+			vc.touchKeysForType(nil, base, stt.Field(j).Type(), 1)
+			var ks []string
+			vc.keysOfType(base, stt.Field(j).Type(), &ks)
+			if vc.immKeys == nil {
+				vc.immKeys = map[string]bool{}
+			}
+			for _, k := range ks {
+				vc.immKeys[k] = true
+				if refLike(stt.Field(j).Type()) {
+					vc.markRef(k)
+				}
+			}
+		}
+	}
+}
+
+// structuralObligations scans every function of the loaded packages for the whole-package claims
+// `constglobal g` (g is stored only by the package initialiser and its address never escapes) and
+// `immutable T.f` (T.f is stored only through an object allocated in the storing function, i.e. while it is being
+// constructed, and its address never escapes). The result is decided by the scan itself (no solver).
+func (e *Engine) structuralObligations() []*Obligation {
+	if len(e.db.Structural) == 0 {
+		return nil
+	}
+	bad := map[string][]string{}
+	var initVals map[string][]string
+	note := func(name, msg string) { bad[name] = append(bad[name], msg) }
+	pkgName := func(p *types.Package) string {
+		if p == nil || p.Name() == "lua" {
+			return ""
+		}
+		return p.Name() + "."
+	}
+	for fn := range ssautil.AllFunctions(e.prog) {
+		if fn.Pkg == nil || e.pkgs[fn.Pkg.Pkg.Name()] != fn.Pkg {
+			continue
+		}
+		isInit := fn.Name() == "init" && fn.Synthetic != "" || strings.HasPrefix(fn.Name(), "init#")
+		for _, b := range fn.Blocks {
+			for _, in := range b.Instrs {
+				// globals
+				for _, op := range in.Operands(nil) {
+					g, ok := (*op).(*ssa.Global)
+					if !ok || g.Pkg == nil {
+						continue
+					}
+					name := pkgName(g.Pkg.Pkg) + g.Name()
+					if !e.db.ConstGlobals[name] {
+						continue
+					}
+					switch x := in.(type) {
+					case *ssa.UnOp:
+						if x.Op == token.MUL {
+							continue
+						}
+					case *ssa.Store:
+						if x.Addr == ssa.Value(g) && x.Val != ssa.Value(g) {
+							if !isInit {
+								note("constglobal "+name, fmt.Sprintf("assigned in %s at %s", fn.String(), e.fset.Position(in.Pos())))
+							}
+							continue
+						}
+					case *ssa.DebugRef:
+						continue
+					}
+					note("constglobal "+name, fmt.Sprintf("address taken in %s at %s", fn.String(), e.fset.Position(in.Pos())))
+				}
+				// element stores through a constant slice variable: x := *g; x[i] = v
+				if ia, ok := in.(*ssa.IndexAddr); ok {
+					if ld, ok := ia.X.(*ssa.UnOp); ok && ld.Op == token.MUL {
+						if g, ok := ld.X.(*ssa.Global); ok && g.Pkg != nil && e.db.ConstGlobals[pkgName(g.Pkg.Pkg)+g.Name()] {
+							for _, ref := range *ia.Referrers() {
+								if stv, ok := ref.(*ssa.Store); ok && stv.Addr == ssa.Value(ia) {
+									note("constglobal "+pkgName(g.Pkg.Pkg)+g.Name(), fmt.Sprintf("element assigned in %s at %s", fn.String(), e.fset.Position(stv.Pos())))
+								}
+							}
+						}
+					}
+				}
+				// initial value of a slice-of-functions variable: *g = slice(new [n]T) with constant element stores
+				if stv, ok := in.(*ssa.Store); ok && isInit {
+					if g, ok := stv.Addr.(*ssa.Global); ok && g.Pkg != nil {
+						if sl, ok := stv.Val.(*ssa.Slice); ok {
+							if al, ok := sl.X.(*ssa.Alloc); ok {
+								vals := map[int64]string{}
+								for _, ref := range *al.Referrers() {
+									ia, ok := ref.(*ssa.IndexAddr)
+									if !ok {
+										continue
+									}
+									c, ok := ia.Index.(*ssa.Const)
+									if !ok {
+										continue
+									}
+									for _, r2 := range *ia.Referrers() {
+										if s2, ok := r2.(*ssa.Store); ok && s2.Addr == ssa.Value(ia) {
+											v := s2.Val
+											for {
+												if ct, ok := v.(*ssa.ChangeType); ok {
+													v = ct.X
+													continue
+												}
+												break
+											}
+											if f, ok := v.(*ssa.Function); ok {
+												vals[c.Int64()] = f.Name()
+											} else {
+												vals[c.Int64()] = "?"
+											}
+										}
+									}
+								}
+								var lst []string
+								for i := int64(0); i < int64(len(vals)); i++ {
+									lst = append(lst, vals[i])
+								}
+								if initVals == nil {
+									initVals = map[string][]string{}
+								}
+								initVals[pkgName(g.Pkg.Pkg)+g.Name()] = lst
+							}
+						}
+					}
+				}
+				// fields
+				fa, ok := in.(*ssa.FieldAddr)
+				if !ok {
+					continue
+				}
+				pt, ok := fa.X.Type().Underlying().(*types.Pointer)
+				if !ok {
+					continue
+				}
+				stt, ok := pt.Elem().Underlying().(*types.Struct)
+				if !ok {
+					continue
+				}
+				name := structName(pt.Elem()) + "." + stt.Field(fa.Field).Name()
+				if !e.db.Immutable[name] {
+					continue
+				}
+				for _, ref := range *fa.Referrers() {
+					switch x := ref.(type) {
+					case *ssa.UnOp:
+						if x.Op == token.MUL {
+							continue
+						}
+					case *ssa.DebugRef:
+						continue
+					case *ssa.Store:
+						if x.Addr == ssa.Value(fa) && x.Val != ssa.Value(fa) {
+							if _, fresh := fa.X.(*ssa.Alloc); !fresh {
+								note("immutable "+name, fmt.Sprintf("stored through a non-fresh object in %s at %s", fn.String(), e.fset.Position(x.Pos())))
+							}
+							continue
+						}
+					}
+					note("immutable "+name, fmt.Sprintf("address escapes in %s at %s", fn.String(), e.fset.Position(fa.Pos())))
+				}
+			}
+		}
+	}
+	var out []*Obligation
+	for _, d := range e.db.Structural {
+		id := d.Kind + " " + d.Name
+		o := &Obligation{Name: "STRUCT/" + d.Kind + "/" + d.Name, Kind: "STRUCT", Fn: "package", Tags: d.Tags, Expect: "unsat", Where: d.Line,
+			Desc: map[string]string{"constglobal": "package variable " + d.Name + " is assigned only by the package initialiser and its address is never taken",
+				"immutable": "field " + d.Name + " is stored only into an object allocated by the storing function (construction) and its address never escapes"}[d.Kind],
+			Static: true}
+		if d.Kind == "initvalue" {
+			o.Desc = "package variable " + d.Name + " is initialised to [" + strings.Join(d.Vals, ", ") + "] in that order, and neither it nor its elements are assigned anywhere else"
+			bad[id] = append(bad[id], bad["constglobal "+d.Name]...)
+			if got, ok := initVals[d.Name]; !ok {
+				bad[id] = append(bad[id], "no slice-literal initialiser found in the package initialiser")
+			} else if strings.Join(got, " ") != strings.Join(d.Vals, " ") {
+				bad[id] = append(bad[id], "initialised to ["+strings.Join(got, ", ")+"]")
+			}
+		}
+		if msgs := bad[id]; len(msgs) > 0 {
+			sort.Strings(msgs)
+			o.Result = SolverResult{Status: "sat", Solver: "ssa-scan", Output: strings.Join(msgs, "\n")}
+		} else {
+			o.Result = SolverResult{Status: "unsat", Solver: "ssa-scan"}
+		}
+		out = append(out, o)
+	}
+	return out
 }
